@@ -134,6 +134,7 @@ func (fc *FnCtx) exec(st *State, s ast.Stmt, label string) *State {
 	if st == nil {
 		return nil
 	}
+	fc.curPos = s.Pos()
 	switch x := s.(type) {
 	case *ast.BlockStmt:
 		return fc.execBlock(st, x.List)
@@ -614,12 +615,13 @@ type modSet struct {
 	wslices map[types.Object]bool // slice variables written through
 	unknownWrite bool
 	nonIdx  map[types.Object]bool // written through by append/copy (not only by index)
+	foreign map[types.Object]bool // slice variables assigned from something other than themselves
 	paths   []string // selector paths assigned in the loop (or listed under on-call modifies)
 	node    ast.Node
 }
 
 func (fc *FnCtx) modified(nodes ...ast.Node) *modSet {
-	ms := &modSet{vars: map[types.Object]bool{}, wslices: map[types.Object]bool{}, nonIdx: map[types.Object]bool{}}
+	ms := &modSet{vars: map[types.Object]bool{}, wslices: map[types.Object]bool{}, nonIdx: map[types.Object]bool{}, foreign: map[types.Object]bool{}}
 	if fc.contract != nil && len(fc.contract.Stable) > 0 {
 		ms.paths = fc.assignedPaths(nodes...)
 		for _, n := range nodes {
@@ -704,6 +706,35 @@ func (fc *FnCtx) modified(nodes ...ast.Node) *modSet {
 			case *ast.AssignStmt:
 				for _, l := range x.Lhs {
 					markLhs(l)
+				}
+				// x = append(x, ...) / x = x[a:b] keep x inside (or freshly outside) its own backing array;
+				// any other assignment to a slice variable may make it point anywhere
+				for i, l := range x.Lhs {
+					id, ok := l.(*ast.Ident)
+					if !ok {
+						continue
+					}
+					o := fc.pkg.TypesInfo.ObjectOf(id)
+					if o == nil {
+						continue
+					}
+					if _, isSlice := o.Type().Underlying().(*types.Slice); !isSlice {
+						continue
+					}
+					self := false
+					if len(x.Rhs) == len(x.Lhs) {
+						r := unparen(x.Rhs[i])
+						if c, ok := r.(*ast.CallExpr); ok {
+							if fid, ok := c.Fun.(*ast.Ident); ok && fid.Name == "append" && len(c.Args) > 0 && rootVar(c.Args[0]) == o {
+								self = true
+							}
+						} else if rootVar(r) == o {
+							self = true
+						}
+					}
+					if !self {
+						ms.foreign[o] = true
+					}
 				}
 			case *ast.IncDecStmt:
 				markLhs(x.X)
@@ -823,6 +854,10 @@ func (fc *FnCtx) havocForLoop(st *State, ms *modSet, entry *State) {
 						// written only by index through a slice variable the loop never reassigns:
 						// every write lands inside its window (bounds obligation), the rest of the region is untouched
 						wins = append(wins, heapWindow{sv.Rgn, sv.Off, fc.define(add(sv.Off, sv.Len), "whi")})
+					} else if !ms.foreign[o] {
+						// only re-sliced or appended to itself: writes into the entry backing array stay inside its
+						// capacity window (an append that does not fit moves to a new backing array)
+						wins = append(wins, heapWindow{sv.Rgn, sv.Off, fc.define(add(sv.Off, sv.Cap), "whi")})
 					} else {
 						excl = append(excl, sv.Rgn)
 					}
